@@ -195,9 +195,12 @@ func (l *Walker) setAssociativeSequenceElements(valuesList [][]string, keys []st
 		for i, key := range validKeys {
 			// delete the node from **dest** if it's null or empty
 			if yaml.IsMissingOrNull(val) || yaml.IsEmptyMap(val) {
+				// look the element up the way elementValueList did: a secondary
+				// key the element does not spell is not part of its identity
+				delKeys, delValues := validateKeys([][]string{validValues}, validValues, validKeys)
 				_, err = dest.Pipe(yaml.ElementSetter{
-					Keys:   validKeys,
-					Values: validValues,
+					Keys:   delKeys,
+					Values: delValues,
 				})
 				if err != nil {
 					return nil, err
